@@ -2,7 +2,7 @@
    the library's satisfier draws its answers from (C01/C02) -- is accepted by the interpreter's
    evaluator: on the abstraction of a table satisfaction of a fragment it returns normally with
    Satisfied on top (nothing for V fragments), on a table dissatisfaction with Dissatisfied.
-   Fragments: as Theorem A ([no_multi]: all but the multisig leaves and raw_pk_h).
+   Fragments: [ccover]: all but the multisig leaves and raw_pk_h.
    The caller's assets must be genuine ([assets_ok], as in C01), signatures and keys are not the
    one-byte string 01, and the interpreter can parse the script's keys. *)
 From Verif Require Import Exec Ser Ast Types TypeCheck SatSpec ExecLemmas TheoremA InterpModel InterpRefine.
@@ -19,10 +19,27 @@ Section Complete.
   Hypothesis Hnum5 : forall z, (0 <= z < 2147483648)%Z -> num_operand 5 (num_encode z) = Some z.
   Hypothesis Htruthy : forall z, (0 < z < 2147483648)%Z -> truthy (num_encode z) = true.
   Hypothesis Htruthy_num : forall v z, num_operand 4 v = Some z -> truthy v = negb (z =? 0)%Z.
+  Hypothesis Hsig_empty : forall kbs, e_sigok e kbs [] = false.
   Hypothesis HA : assets_ok e ke A.
   Hypothesis Hsig1 : forall k s, a_sig A k = Some s -> s <> [1].
   Hypothesis Hkey1 : forall k, kb ke k <> [1].
   Hypothesis Hkparse : forall k, kp (kb ke k) = true.
+
+  (* fragments covered: everything except the multisig leaves and raw_pk_h *)
+  Fixpoint ccover (m : ms) : Prop :=
+    match m with
+    | MRawPkH _ | MMulti _ _ | MSortedMulti _ _ | MMultiA _ _ | MSortedMultiA _ _ => False
+    | MAlt x | MSwap x | MCheck x | MDupIf x | MVerify x | MNonZero x | MZeroNotEqual x => ccover x
+    | MAndV x y | MAndB x y | MOrB x y | MOrD x y | MOrC x y | MOrI x y => ccover x /\ ccover y
+    | MAndOr a b c => ccover a /\ ccover b /\ ccover c
+    | MThresh _ xs => (fix go (l : list ms) : Prop := match l with [] => True | x :: r => ccover x /\ go r end) xs
+    | _ => True
+    end.
+  Lemma ccover_no_multi : forall m, ccover m -> no_multi m.
+  Proof.
+    induction m using ms_ind'; cbn [ccover no_multi]; try tauto.
+    induction H as [|x r Hx Hr IHr]; [tauto|]. intros [H1 H2]. split; [apply Hx, H1 | apply IHr, H2].
+  Qed.
 
   Notation sat m := (all_sat ke A m).
   Notation dsat m := (all_dsat ke A m).
@@ -86,9 +103,9 @@ Section Complete.
     split; intros w r H; cbn [all_sat all_dsat sd fst snd] in H; [|contradiction].
     destruct (a_after A t) eqn:Ea; [|contradiction]. destruct H as [<-|[]].
     pose proof (ok_after _ _ _ HA t Ea) as Hc. unfold check_locktime in Hc. rewrite N2Z.id in Hc.
-    cbv zeta in Hc. apply andb_prop in Hc. destruct Hc as [_ Hc]. apply andb_prop in Hc. destruct Hc as [Hc _].
-    apply andb_prop in Hc. destruct Hc as [Hu Hle].
-    cbn [Ab map app ieval]. unfold evaluate_after. rewrite Hu, Hle. eexists; reflexivity.
+    cbv zeta in Hc. apply andb_prop in Hc. destruct Hc as [_ Hc]. apply andb_prop in Hc. destruct Hc as [Hc Hnf].
+    apply andb_prop in Hc. destruct Hc as [Hu Hle]. apply negb_true_iff in Hnf.
+    cbn [Ab map app ieval]. unfold evaluate_after. rewrite Hnf, Hu, Hle. eexists; reflexivity.
   Qed.
 
   Lemma q_older t : wf e ke (MOlder t) -> comp (MOlder t) BB.
@@ -105,8 +122,9 @@ Section Complete.
       - change 2147483648 with (2 ^ 31). rewrite N.pow2_bits_false by congruence. apply andb_false_r. }
     rewrite Hd in Hc. cbn [N.eqb negb] in Hc.
     apply andb_prop in Hc. destruct Hc as [Hc Hle]. apply andb_prop in Hc. destruct Hc as [Hc Hty].
-    apply andb_prop in Hc. destruct Hc as [_ Hdis].
-    cbn [Ab map app ieval]. rewrite Hd. cbn [N.eqb negb]. unfold evaluate_older. rewrite Hdis, Hty, Hle. eexists; reflexivity.
+    apply andb_prop in Hc. destruct Hc as [Hv Hdis].
+    assert (Hv' : (e_txversion e <? 2) = false) by (apply N.ltb_ge, N.leb_le, Hv).
+    cbn [Ab map app ieval]. rewrite Hd. cbn [N.eqb negb]. unfold evaluate_older. rewrite Hv', Hdis, Hty, Hle. eexists; reflexivity.
   Qed.
 
   Lemma q_hash_gen (m : ms) (kd : ihk) (look : bytes -> option bytes) (h : bytes) :
@@ -175,11 +193,13 @@ Section Complete.
   (* ---------------------------------------------------------------- combinators *)
   Lemma q_and_v x y b : comp x BV -> comp y b -> comp (MAndV x y) b.
   Proof.
-    intros [Hxs _] [Hys _]. split; intros w r H.
+    intros [Hxs _] [Hys Hyd]. split; intros w r H.
     - rewrite sat_and_v in H. apply in_cross in H. destruct H as [a [c [Ha [Hc ->]]]].
       destruct (Hxs a (Ab c ++ r) Ha) as [c1 H1]. destruct (Hys c r Hc) as [c2 H2].
       cbn [ieval]. rewrite Ab_app, <- app_assoc, (xbind_okk _ _ _ _ H1). cbn [resS]. rewrite H2. eexists; reflexivity.
-    - rewrite dsat_and_v in H. contradiction.
+    - rewrite dsat_and_v in H. apply in_cross in H. destruct H as [a [c [Ha [Hc ->]]]].
+      destruct (Hxs a (Ab c ++ r) Ha) as [c1 H1]. destruct (Hyd c r Hc) as [c2 H2].
+      cbn [ieval]. rewrite Ab_app, <- app_assoc, (xbind_okk _ _ _ _ H1). cbn [resS]. rewrite H2. eexists; reflexivity.
   Qed.
 
   Lemma q_and_b x y bx by' : bx <> BV -> by' <> BV -> comp x bx -> comp y by' -> comp (MAndB x y) BB.
@@ -323,7 +343,7 @@ Section Complete.
 
   (* ---------------------------------------------------------------- typing dispatch *)
   Definition cstmt (m : ms) : Prop :=
-    forall t, type_of m = ROk t -> wf e ke m -> no_multi m -> comp m (c_base (t_corr t)).
+    forall t, type_of m = ROk t -> wf e ke m -> ccover m -> comp m (c_base (t_corr t)).
 
   Ltac unf H := unfold t_cast_alt, t_cast_swap, t_cast_check, t_cast_dupif, t_cast_verify, t_cast_nonzero,
     t_cast_zeronotequal, t_and_v, t_and_b, t_or_b, t_or_c, t_or_d, t_or_i, t_and_or, lift1, lift2,
@@ -332,12 +352,12 @@ Section Complete.
 
   Ltac one_child_c IH Ht Hwf Hnm tx Hs :=
     cbn [type_of] in Ht; apply rbind_ok in Ht; destruct Ht as [tx [?Hx Ht]];
-    cbn [wf no_multi] in Hwf, Hnm; pose proof (IH tx Hx Hwf Hnm) as Hs;
+    cbn [wf ccover] in Hwf, Hnm; pose proof (IH tx Hx Hwf Hnm) as Hs;
     destruct tx as [[?bx ?ix ?dx ?ux] ?mx]; unf Ht; cbn [t_corr c_base] in *.
   Ltac two_children_c IHx IHy Ht Hwf Hnm Hsx Hsy :=
     cbn [type_of] in Ht; apply rbind_ok in Ht; destruct Ht as [?tx [?Hx Ht]];
     apply rbind_ok in Ht; destruct Ht as [?ty [?Hy Ht]];
-    cbn [wf no_multi] in Hwf, Hnm; destruct Hwf as [?Hwx ?Hwy]; destruct Hnm as [?Hnx ?Hny];
+    cbn [wf ccover] in Hwf, Hnm; destruct Hwf as [?Hwx ?Hwy]; destruct Hnm as [?Hnx ?Hny];
     pose proof (IHx _ Hx Hwx Hnx) as Hsx; pose proof (IHy _ Hy Hwy Hny) as Hsy;
     destruct tx as [[?bx ?ix ?dx ?ux] ?mx]; destruct ty as [[?b2 ?i2 ?d2 ?u2] ?m2]; unf Ht; cbn [t_corr c_base] in *.
 
@@ -372,9 +392,9 @@ Section Complete.
     - (* verify *) intros t Ht Hwf Hnm. one_child_c IHm Ht Hwf Hnm tx Hs.
       destruct bx; try discriminate. inversion Ht; subst. cbn [t_corr c_base]. apply (q_verify m BB); [discriminate | exact Hs].
     - (* nonzero *) intros t Ht Hwf Hnm.
-      cbn [type_of] in Ht. apply rbind_ok in Ht. destruct Ht as [tx [Hx Ht]]. cbn [wf no_multi] in Hwf, Hnm.
+      cbn [type_of] in Ht. apply rbind_ok in Ht. destruct Ht as [tx [Hx Ht]]. cbn [wf ccover] in Hwf, Hnm.
       pose proof (IHm tx Hx Hwf Hnm) as Hs.
-      destruct (theoremA e ke A Hnum4 Hnum5 Htruthy Htruthy_num HA m tx Hx Hwf Hnm) as [_ [Hsh _]].
+      destruct (theoremA e ke A Hnum4 Hnum5 Htruthy Htruthy_num HA Hsig_empty m tx Hx Hwf (ccover_no_multi m Hnm)) as [_ [Hsh _]].
       destruct tx as [[bx ix dx ux] mx]. unf Ht. cbn [t_corr c_base c_input] in *.
       destruct ix; cbn in Ht; try discriminate; destruct bx; try discriminate; inversion Ht; subst; cbn [t_corr c_base];
         (apply (q_nonzero m BB); [discriminate | exact Hs|]); intros w Hw; specialize (Hsh w Hw); cbn in Hsh.
@@ -390,7 +410,7 @@ Section Complete.
     - (* andor *) intros t Ht Hwf Hnm.
       cbn [type_of] in Ht. apply rbind_ok in Ht. destruct Ht as [ta [Ha Ht]].
       apply rbind_ok in Ht. destruct Ht as [tb [Hb Ht]]. apply rbind_ok in Ht. destruct Ht as [tc [Hc Ht]].
-      cbn [wf no_multi] in Hwf, Hnm. destruct Hwf as [Hwa [Hwb Hwc]]. destruct Hnm as [Hna [Hnb Hnc]].
+      cbn [wf ccover] in Hwf, Hnm. destruct Hwf as [Hwa [Hwb Hwc]]. destruct Hnm as [Hna [Hnb Hnc]].
       pose proof (IHm1 ta Ha Hwa Hna) as Hsa. pose proof (IHm2 tb Hb Hwb Hnb) as Hsb. pose proof (IHm3 tc Hc Hwc Hnc) as Hsc.
       destruct ta as [[ba ia da ua] ma], tb as [[bb ib db ub] mb], tc as [[bc ic dc uc] mc]. unf Ht. cbn [t_corr c_base] in *.
       destruct da; cbn [negb] in Ht; try discriminate. destruct ua; cbn [negb] in Ht; try discriminate.
@@ -409,7 +429,7 @@ Section Complete.
       destruct bx, b2; try discriminate; inversion Ht; subst; cbn [t_corr c_base]; apply q_or_i; assumption.
     - (* thresh *) intros t Ht Hwf Hnm. cbn [type_of] in Ht. fold (tys_of xs) in Ht.
       apply rbind_ok in Ht. destruct Ht as [ts [Hts Ht]]. apply tys_of_ok in Hts.
-      cbn [wf no_multi] in Hwf, Hnm. destruct Hwf as [Hk [Hn Hwf]].
+      cbn [wf ccover] in Hwf, Hnm. destruct Hwf as [Hk [Hn Hwf]].
       unfold t_threshold in Ht. destruct (c_threshold k (map t_corr ts)) as [c|] eqn:Ec; [|discriminate].
       inversion Ht; subst; clear Ht.
       unfold c_threshold in Ec. destruct (c_thresh_loop 0 0 (map t_corr ts)) as [n|] eqn:El; [|discriminate].
@@ -435,7 +455,7 @@ Section Complete.
 
   (* table satisfactions of a B-typed script are accepted by the faithful interpreter *)
   Theorem interp_complete_table m t w :
-    type_of m = ROk t -> c_base (t_corr t) = BB -> wf e ke m -> no_multi m ->
+    type_of m = ROk t -> c_base (t_corr t) = BB -> wf e ke m -> ccover m ->
     In w (sat m) -> exists cs, interp e ke kp m (astack_of_items (rev w)) = IAccept cs.
   Proof.
     intros Ht Hb Hwf Hnm Hin. rewrite interp_eq_rec. unfold interp_rec.
